@@ -2,6 +2,7 @@ package main
 
 import (
 	"fmt"
+	"github.com/gobuffalo/plush/v5"
 	"html/template"
 	"strings"
 )
@@ -229,6 +230,37 @@ func init() {
 				}
 				if o.Class != "OK" || o.Out != "[["+t.want+"]]" {
 					e.Violate("c01-escape", fmt.Sprintf("%s with payload %q rendered %q (%s %s), want %q", t.tmpl, p, o.Out, o.Class, o.Msg, "[["+t.want+"]]"), map[string]interface{}{"case": c, "payload": p, "observed": o})
+				}
+			}
+		}
+		// a block helper that returns a plain STRING made of an argument and of what its block rendered
+		// to: the string is data, all of it is escaped by the sink (Go-only helper)
+		for _, p := range payloads {
+			extra := map[string]interface{}{"pl": p,
+				"labelh": func(text string, h plush.HelperContext) (string, error) {
+					body, err := h.Block()
+					return text + ": " + body, err
+				},
+				"labelctx": func(text string, h plush.HelperContext) (string, error) {
+					body, err := h.BlockWith(h.New())
+					return body + "/" + text, err
+				},
+				"labelhtml": func(text string, h plush.HelperContext) (template.HTML, error) {
+					body, err := h.Block()
+					return template.HTML(template.HTMLEscapeString(text) + ": " + body), err
+				}}
+			esc := template.HTMLEscapeString(p)
+			for _, t := range [][2]string{
+				{"[[<%= labelh(pl) { %>field<% } %>]]", template.HTMLEscapeString(p + ": field")}, {"[[<%= labelctx(pl) { %>f<%= 1 %><% } %>]]", template.HTMLEscapeString("f1/" + p)},
+				{"[[<%= labelh(pl) { %><%= pl %><% } %>]]", template.HTMLEscapeString(p + ": " + esc)}, {"<% let r = labelh(pl) { %>x<% } %>[[<%= r %>]]", template.HTMLEscapeString(p + ": x")},
+				{"[[<%= labelhtml(pl) { %><i><% } %>]]", esc + ": <i>"}, {"[[<%= for (q) in [pl] { %><%= labelh(q) { %>z<% } %><% } %>]]", template.HTMLEscapeString(p + ": z")},
+			} {
+				c := RCase{Tmpl: t[0]}
+				o := runRenderExtra(c, extra)
+				e.rep.Evaluations++
+				e.Count("string-block-helper")
+				if o.Class != "OK" || o.Out != "[["+t[1]+"]]" {
+					e.Violate("c01-escape", fmt.Sprintf("%s with payload %q rendered %q (%s %s), want %q", t[0], p, o.Out, o.Class, o.Msg, "[["+t[1]+"]]"), map[string]interface{}{"case": c, "payload": p, "observed": o})
 				}
 			}
 		}
